@@ -86,6 +86,8 @@ func main() {
 		fallbackS = flag.Int("fallback-s", 60, "timeout of the one-shot fallback solver (seconds)")
 		samples   = flag.Int("samples", 4, "number of path samples to keep")
 		budget    = flag.Duration("budget", 0, "wall-clock budget (0 = none)")
+		violCap   = flag.Int("viol-cap", 0, "stop exploring after this many paths violating one label (0 = off)")
+		knownLab  = flag.String("known-labels", "", "JSON file: list of labels (known findings) not counted towards -viol-cap")
 		trace     = flag.Bool("trace", false, "trace instructions")
 		slog      = flag.String("solver-log", "", "prefix for solver transcript files")
 		params    = flag.String("params", "", "harness parameters name=val,name=val")
@@ -112,6 +114,16 @@ func main() {
 		}
 	}
 	fbTimeoutDefault = *fallbackS
+	cfg.ViolCap = *violCap
+	if *knownLab != "" {
+		var labs []string
+		if b, err := os.ReadFile(*knownLab); err == nil && json.Unmarshal(b, &labs) == nil {
+			cfg.KnownLabel = map[string]bool{}
+			for _, l := range labs {
+				cfg.KnownLabel[l] = true
+			}
+		}
+	}
 	if *budget > 0 {
 		cfg.Deadline = t0.Add(*budget)
 	}
